@@ -109,10 +109,10 @@ def declare(ty, name, ind=''):
 
 class Gen:
     def __init__(self, rng, bitfields=True, packed=False, aligned=True, fp=True, flex=False, max_depth=3, max_members=6, unions=True,
-                 anon=True, zero_width=True, ldouble=True, alignas=True):
+                 anon=True, zero_width=True, ldouble=True, alignas=True, unnamed_bf=True):
         self.rng = rng
         self.o = dict(bitfields=bitfields, packed=packed, aligned=aligned, fp=fp, flex=flex, unions=unions, anon=anon, zero_width=zero_width,
-                      ldouble=ldouble, alignas=alignas)
+                      ldouble=ldouble, alignas=alignas, unnamed_bf=unnamed_bf)
         self.max_depth, self.max_members = max_depth, max_members
         self.n = 0
 
@@ -147,7 +147,7 @@ class Gen:
                 w = 8 * cint.sizeof(base) if base != 'bool' else 1
                 if self.o['zero_width'] and r.random() < 0.08:
                     ms.append(Member(None, Scalar(base), 0))
-                elif r.random() < 0.1:
+                elif r.random() < 0.1 and self.o['unnamed_bf']:
                     ms.append(Member(None, Scalar(base), r.randrange(1, w + 1)))
                 else:
                     ms.append(Member(self.name(), Scalar(base), r.choice([1, 1, 2, 3, 5, 7, 8, 9, 15, 16, 17, 31, 32, 33, 63, 64, r.randrange(1, 65)]) % w + 1 if base != 'bool' else 1))
